@@ -150,6 +150,73 @@ def _combo_job(kw):
     return ("cmp", n, bad[:3], len(bad))
 
 
+def _mirror_job(kw):
+    """Two points of one cross-section observable with the same Q2 and interchanged (x, y): the second one is still the combination of the
+    structure functions at ITS x (objects remembered for the first point must not be handed to the second)."""
+    from .. import model
+
+    proj = model.project()
+    kw = dict(kw)
+    kind = kw.pop("kind")
+    fl = kw.pop("fl")
+    a_, b_, q2 = Fraction(1, 5), Fraction(1, 2), 20
+    base = ("F2", "FL", "F3")
+    try:
+        xs_op = O.fold_op(proj, R.Cell(obs=f"{kind}_{fl}", kin_y=True, points=[{"x": a_, "Q2": q2, "y": b_}, {"x": b_, "Q2": q2, "y": a_}], **kw))
+        comps = [O.fold_op(proj, R.Cell(obs=f"{b}_{fl}", kin_y=False, points=[{"x": b_, "Q2": q2}], **kw)) for b in base]
+    except O.FoldFailure as f:
+        return ("fold", f.outcome.status, f"{f.outcome.etype} {f.outcome.msg}"[:160], f.outcome.site, f.outcome.construct)
+    pid = {"electron": 11, "positron": -11, "neutrino": 12, "antineutrino": -12}[kw["projectile"]]
+    try:
+        coeffs = [A.subs(A.to_rat(c), {"xB": A.Rat.const(b_), "y": A.Rat.const(a_), "Q2": A.Rat.const(q2)}) for c in fold_coeffs(proj, kind, pid)]
+    except (A.Undecided, S.Raised) as e:
+        return ("fold", "undecided", f"coefficients not foldable: {e}", "", "")
+    bad = []
+    n = 0
+    keys = set(xs_op.keys())
+    for c in comps:
+        keys |= c.keys()
+    for key in sorted(keys):
+        for p in xs_op.pids:
+            for j in range(R.GRID_N):
+                n += 1
+                exp = A.Rat.const(0)
+                for c, comp in zip(coeffs, comps):
+                    if c.n.is_zero():
+                        continue
+                    exp = exp + c * A.to_rat(comp.entry(key, p, j))
+                got = xs_op.entry(key, p, j)
+                if not O.same(got, exp):
+                    bad.append((key, p, j, O.diff_text(got, exp)))
+    return ("cmp", n, bad[:3], len(bad))
+
+
+def check_mirror(rep, proj, tier):
+    jobs = [dict(kind=kind, fl="total", process=proc, projectile=projectile, fns="ZM-VFNS", nfff=4, nf=4, pto=1, tmc=tmc, ren_sv=False, fact_sv=False)
+            for kind, (proc, projectile), tmc in itertools.product(["XSHERANC", "XSCHORUSCC", "XSNUTEVCC", "FW"], [("NC", "electron"), ("CC", "neutrino")], [0, 1])
+            if (kind == "XSHERANC") == (proc == "NC")]
+    outs = sweep.run_cells(_mirror_job, jobs)
+    n_entries = 0
+    for kw, o in zip(jobs, outs):
+        label = f"{kw['kind']}_total|{kw['process']}|{kw['projectile']}|TMC={kw['tmc']}|points (1/5, 20, 1/2) then (1/2, 20, 1/5)"
+        if o[0] == "fold":
+            _, status, msg, site, construct = o
+            if status == "rejected":
+                rep.ok("C11.mirror", "", label, f"configuration explicitly rejected ({msg[:50]})")
+            else:
+                rep.undecided("C11.mirror", "", label, f"not foldable ({status}): {msg}")
+            continue
+        _, n, bad, nbad = o
+        n_entries += n
+        if nbad:
+            key, p, j, txt = bad[0]
+            rep.bad("C11.mirror", "src/yadism/esf/exs.py", label, f"{nbad} of {n} entries of the second point differ from coeffs . (F2, FL, xF3) at its own x = 1/2 "
+                    f"(the structure functions of the mirrored first point are used), e.g. order {key} pid {p} node {j}: {txt[:300]}", key=label)
+        else:
+            rep.ok("C11.mirror", "", label, f"{n} entries of the second point == the combination of the structure functions at its own kinematics")
+    rep.floor("mirrored-pair entries compared", n_entries, 300)
+
+
 def check_combo(rep, proj, tier):
     ev0 = S.Evaluator(proj)
     kinds = list(ev0.module_global(proj.module("yadism.observable_name"), "xs"))
@@ -213,3 +280,4 @@ def run(rep, proj, tier):
     rep.assumptions = ["unit conversions GeV^-2 -> cm^2 / pb are constants the docs mention only in words: 1, 3.893793e10, 3.893793e8 accepted"]
     check_coeffs(rep, proj)
     check_combo(rep, proj, tier)
+    check_mirror(rep, proj, tier)
